@@ -53,13 +53,16 @@ def sx_parse(s):
     return v
 
 
-def run_dsgm(lines, timeout=600):
+def run_dsgm(lines, timeout=300):
     """Feed query lines to the extracted model, return the parsed result per line."""
     if not lines:
         return []
     inp = '\n'.join(lines) + '\n'
-    p = subprocess.run(['bash', '-c', 'ulimit -s unlimited 2>/dev/null; exec "%s"' % DSGM], input=inp.encode(),
-                       stdout=subprocess.PIPE, stderr=subprocess.PIPE, timeout=timeout)
+    try:
+        p = subprocess.run(['bash', '-c', 'ulimit -s unlimited 2>/dev/null; exec "%s"' % DSGM], input=inp.encode(),
+                           stdout=subprocess.PIPE, stderr=subprocess.PIPE, timeout=timeout)
+    except subprocess.TimeoutExpired:
+        return [['error', 'model-timeout']] * len(lines)
     out = p.stdout.decode().split('\n')
     if out and out[-1] == '':
         out.pop()
